@@ -314,14 +314,24 @@ class C12(MsgProp):
             for k in range(0, 12):
                 ladder.append(g.message(r, n, "safe", lens=k))
                 ladder.append(g.message(r, n, "safe", lens=k))
+        # the longest frames the crate can emit: 1059 at capacity over 58..63 satellites, 1057/1065 at capacity
+        for k in (58, 59, 60, 61, 62, 63, 63):
+            head = g.frag(r, g.mod_of[1059], "safe")
+            c0 = [i for i, t in enumerate(head) if t.startswith("c")][0]
+            ladder.append("1059 " + " ".join(head[:c0] + g.bias_list(r, "df_msg1059_biases", "valid", shape="capsats%d" % k)))
+        for n in (1057, 1060, 1063, 1066):
+            if n in g.numbers:
+                ladder.append(g.message(r, n, "safe", lens=10 ** 6))
+                ladder.append(g.message(r, n, "safe", lens=10 ** 6))
         ans = ctx.run_all([ctx.exe_release], ["ENC " + m for m in ladder], 20.0)
         sized = [(len(a) // 2, m) for m, a in zip(ladder, ans) if not a.startswith("ERR") and a not in ("PANIC", "BAD-OP", "CRASH", "HANG")]
         by_len = {}
         for L, m in sized:
             by_len.setdefault(L, []).append(m)
         pairs = 0
-        for L in sorted(by_len):
-            for dlt in (1, 2, 3, -1, -2, -3):
+        lens_sorted = sorted(by_len)
+        for L in lens_sorted[-8:] + lens_sorted[:-8]:      # the longest frames first: they are few and special
+            for dlt in (1, 2, 3, -1, -2, -3, 4, -4):
                 if L + dlt in by_len:
                     for a in by_len[L][:3]:
                         for b in by_len[L + dlt][:3]:
@@ -333,6 +343,12 @@ class C12(MsgProp):
                                 if pairs % 7 == 0:
                                     yield ("BUILDSEQ " + a + " ; " + r.choice(early_fail + late_fail) + " ; " + b, "ladder-with-failed-build", True)
                                     yield ("BUILDSEQ " + r.choice(late_fail) + " ; " + b, "failed-then-target", True)
+        # a build that leaves ones behind, then a refused build (each kind of error), then an unaligned target
+        targets = [m for L, m in sized][:: max(1, len(sized) // (40 if ctx.tier == "quick" else 400))]
+        for t in targets:
+            for mid in special + early_fail + late_fail[:1]:
+                yield ("BUILDSEQ " + r.choice(big) + " ; " + mid + " ; " + t, "dirty-refused-target", True)
+            yield ("BUILDSEQ " + r.choice(big) + " ; E ; C ; " + t, "dirty-refused-target", True)
         n_seq = 150 if ctx.tier == "quick" else 2500
         for _ in range(n_seq):
             k = r.randrange(1, 7 if ctx.tier == "quick" else 11)
@@ -654,6 +670,12 @@ class C17(MsgProp):
         r = ctx.rng("gen")
         pools = [list(range(32, 127)), list(range(128, 256)), [0, 1, 0xA4, 0xFF, 0x100, 0x20AC], [0xE9, 0x7FF, 0x800, 0xFFFF],
                  [0x10000, 0x1F600, 0x10FFFF], [0x41, 0xE9, 0x65E5, 0x1F600, 0]]
+        sc = lambda v: 0 <= v < 0x110000 and not (0xD800 <= v <= 0xDFFF)
+        dpool = [v for v in g.dict["ints"] if sc(v) and v >= 0x80] or [0xE9]
+        npool = [v for v in g.dict.get("new_ints", []) if sc(v)]
+        pools.append(dpool)
+        if npool:
+            pools += [npool, npool + [0x41], npool]
         for N in (7, 31, 127, 255):
             for _ in range(30 if ctx.tier == "quick" else 400):
                 pool = r.choice(pools)
@@ -665,7 +687,7 @@ class C17(MsgProp):
         for n in (1007, 1008, 1021, 1022, 1023, 1024, 1025, 1026, 1027, 1029, 1033, 1300, 1301, 1302):
             if n not in g.numbers:
                 continue
-            for _ in range(10 if ctx.tier == "quick" else 100):
+            for _ in range((10 if n != 1029 else 40) if ctx.tier == "quick" else 100):
                 yield ("ENC " + g.message(r, n, r.choice(["valid", "wild"])), "text-message", True)
         # 1029 with invalid UTF-8 and with counts
         for bad in (b"\xc0\x80", b"\xed\xa0\x80", b"\xe2\x82", b"\xf4\x90\x80\x80", b"\xff", b"ab\x80"):
